@@ -11,15 +11,20 @@ if "-j" in args:
     i = args.index("-j"); j = int(args[i + 1]); del args[i:i + 2]
 if "--seed" in args:
     i = args.index("--seed"); env["VERIF_SEED"] = args[i + 1]; del args[i:i + 2]
+only = None
+if "--only" in args:   # seeds | harmless | harmless2
+    i = args.index("--only"); only = args[i + 1]; del args[i:i + 2]
 props = set(a.upper() for a in args)
 jobs = []
 for mp in sorted(glob.glob(os.path.join(ROOT, "seeded", "*", "meta.json"))):
     m = json.load(open(mp))
-    if not props or m["property"] in props:
+    if (not props or m["property"] in props) and only in (None, "seeds"):
         jobs.append(["python3", os.path.join(ROOT, "lib", "seed.py"), "detect", m["id"]])
 for mp in sorted(glob.glob(os.path.join(ROOT, "harmless", "*", "meta.json"))):
     m = json.load(open(mp))
-    if not props or m["property"] in props:
+    two = bool(m.get("check_with"))
+    if (not props or m["property"] in props or (two and props & set(m["check_with"]))) and \
+            (only is None or (only == "harmless" and not two) or (only == "harmless2" and two)):
         jobs.append(["python3", os.path.join(ROOT, "lib", "harmless.py"), "run", m["id"]])
 def run(cmd):
     p = subprocess.run(cmd, cwd=ROOT, env=env, stdout=subprocess.PIPE, stderr=subprocess.STDOUT, text=True)
